@@ -112,7 +112,7 @@ func cmdCheck(argv []string) int {
 			}
 		}
 	}
-	if len(specs) == 0 && nLem == 0 && *prop != "C06" {
+	if len(specs) == 0 && nLem == 0 && *prop != "C06" && *prop != "C15" {
 		fmt.Fprintf(os.Stderr, "no functions under contract for property %s\n", *prop)
 		return 2
 	}
@@ -138,6 +138,9 @@ func cmdCheck(argv []string) int {
 			return 2
 		}
 		extraReps = sr
+	}
+	if *prop == "C15" && *only == "" {
+		extraReps = append(extraReps, genesisCoverage(l, *prop)...)
 	}
 	if *prop == "C06" && *only == "" {
 		dr, dres := determinismCheck(l, *prop)
